@@ -167,10 +167,10 @@ theorem readOne_skip (cfg : Cfg) (s : State) (rd : Read) (hm : s.find rd.uid = n
 
 /-! ## `splitRd` -/
 
-theorem splitRd_noRd : ∀ (E : List Ev), (∀ u, Ev.rd u ∉ E) → Spec.splitRd E = (E, [])
+theorem splitRd_none : ∀ (E : List Ev), (∀ u, Ev.rd u ∉ E) → Spec.splitRd E = (E, [])
   | [], _ => rfl
   | e :: rest, h => by
-    have ih := splitRd_noRd rest (fun u hu => h u (List.mem_cons_of_mem _ hu))
+    have ih := splitRd_none rest (fun u hu => h u (List.mem_cons_of_mem _ hu))
     cases e with
     | rd u => exact absurd (List.mem_cons_self) (h u)
     | send _ _ _ => simp only [Spec.splitRd, ih]
@@ -178,7 +178,7 @@ theorem splitRd_noRd : ∀ (E : List Ev), (∀ u, Ev.rd u ∉ E) → Spec.splitR
     | wfail _ => simp only [Spec.splitRd, ih]
     | close _ => simp only [Spec.splitRd, ih]
 
-theorem splitRd_rd (u : Nat) (E : List Ev) :
+theorem splitRd_cons (u : Nat) (E : List Ev) :
     Spec.splitRd (Ev.rd u :: E) = ([], (u, (Spec.splitRd E).1) :: (Spec.splitRd E).2) := by
   simp only [Spec.splitRd]
 
@@ -284,7 +284,7 @@ theorem readAll_go : ∀ (reads : List Read) (a : A) (s sQ : State) (E : List Ev
     ((∀ u, Ev.rd u ∉ E) ∧ readAll cfg reads s = s ∧ (∀ rd ∈ reads, s.find rd.uid = none)) ∨
     ((Spec.splitRd E).1 = [] ∧ (Spec.splitRd E).2 ≠ [] ∧
       Inv cfg (Spec.roundBody.go cfg a reads (Spec.splitRd E).2 fuel) sQ ∧
-      (∀ p ∈ proven, Spec.NoErr p a → Spec.NoErr p (Spec.roundBody.go cfg a reads (Spec.splitRd E).2 fuel)))
+      (∀ p ∈ provenCore, Spec.NoErr p a → Spec.NoErr p (Spec.roundBody.go cfg a reads (Spec.splitRd E).2 fuel)))
   | [], a, s, sQ, E, fuel, inv, _, _, q, he => by
     left
     obtain ⟨E', hE', hno, _⟩ := q.nest.ext
@@ -330,9 +330,9 @@ theorem readAll_go : ∀ (reads : List Read) (a : A) (s sQ : State) (E : List Ev
       -- the C14 origin check only appends error entries
       have invN : ∀ evs', Inv cfg (Spec.preSeg cfg a rd evs') s := fun evs' =>
         ⟨sim_coreExt inv.sim (Spec.preSeg_ext cfg a rd evs').core, inv.top, inv.j, inv.t⟩
-      have errN : ∀ evs' p, p ∈ proven → Spec.NoErr p a → Spec.NoErr p (Spec.preSeg cfg a rd evs') :=
+      have errN : ∀ evs' p, p ∈ provenCore → Spec.NoErr p a → Spec.NoErr p (Spec.preSeg cfg a rd evs') :=
         fun evs' p hp hn => (Spec.preSeg_ext cfg a rd evs').noErr (fun h => proven_not hp (by
-          simp only [List.mem_singleton] at h; subst h; simp [others])) hn
+          simp only [List.mem_singleton] at h; subst h; simp [othersCore])) hn
       -- the abstract state after this frame alone
       have tt1 : T (readOne cfg s rd) :=
         T_of_A inv.t (ta_readOne ok hmt (ordOK_of_perm hperm) hfuel inv.top rd).2
@@ -342,7 +342,7 @@ theorem readAll_go : ∀ (reads : List Read) (a : A) (s sQ : State) (E : List Ev
       · -- the last frame handled in this round: the continuation's events belong to its segment
         rw [h2] at q
         have hsplit : Spec.splitRd E = ([], [(rd.uid, E1 ++ (E2a ++ E2b))]) := by
-          rw [hE, List.cons_append, splitRd_rd, splitRd_noRd (E1 ++ (E2a ++ E2b))]
+          rw [hE, List.cons_append, splitRd_cons, splitRd_none (E1 ++ (E2a ++ E2b))]
           intro u hu
           rcases List.mem_append.mp hu with h | h
           · exact hno1 u h
@@ -369,7 +369,7 @@ theorem readAll_go : ∀ (reads : List Read) (a : A) (s sQ : State) (E : List Ev
           rw [go_take cfg a rd rest _ [] fuel am ham, hgo]
           exact hseg.2 p hp (errN _ p hp hn)
       · have hsplit : Spec.splitRd E = ([], (rd.uid, E1) :: (Spec.splitRd (E2a ++ E2b)).2) := by
-          rw [hE, List.cons_append, splitRd_rd, splitRd_append E1 _ hno1, h1]; simp
+          rw [hE, List.cons_append, splitRd_cons, splitRd_append E1 _ hno1, h1]; simp
         rw [hsplit]
         refine ⟨rfl, by simp, ?_, ?_⟩
         · rw [go_take cfg a rd rest E1 _ fuel am ham]; exact h3
@@ -388,13 +388,13 @@ def envA (a : A) (r : Round) : A :=
              (fun fl (p : Nat × Option FailMode) => setFail fl p.1 p.2) a.fail }
 
 /-- clock and failure environment -/
-theorem sim_env {cfg : Cfg} {a : A} {s : State} (hs : Sim cfg a s) (r : Round) : Sim cfg (envA a r) (envStep s r) := by
+theorem sim_env {cfg : Cfg} {a : A} {s : State} (hs : SimM cfg a s) (r : Round) : SimM cfg (envA a r) (envStep s r) := by
   unfold envStep envA
   exact ⟨hs.uids, hs.nacc, by show _ = _; rw [hs.nacc, hs.fail], hs.buf, hs.live, hs.mods, hs.w, hs.logIn, hs.logOut,
-    hs.logConn, hs.logNodup, hs.logBound, hs.idxIn, hs.idxPos, minv_same hs.minv rfl rfl⟩
+    hs.logConn, hs.logNodup, hs.logBound, hs.idxIn, hs.idxPos, minvOn_same hs.minv rfl rfl⟩
 
 /-- the connections the Spec considers alive are the table entries -/
-theorem liveList_contains {cfg : Cfg} {a : A} {s : State} (hs : Sim cfg a s) (u : Nat) (hu : u ≠ 0) :
+theorem liveList_contains {cfg : Cfg} {a : A} {s : State} (hs : SimM cfg a s) (u : Nat) (hu : u ≠ 0) :
     ((a.mods.filter (·.alive)).map (·.uid)).contains u = (s.find u).isSome := by
   have hnd := uids_nodup hs.uids
   have h1 : ((a.mods.filter (·.alive)).map (·.uid)).contains u = true ↔ (a.live u).isSome = true := by
@@ -427,9 +427,9 @@ theorem aget_none_of_fresh {a : A} {n : Nat} (h : a.mods.map (·.uid) = (List.ra
     omega
 
 /-- `accept()`: a fresh entry on both sides (and the writable set sampled afterwards) -/
-theorem sim_accept {cfg : Cfg} {a : A} {s : State} (hs : Sim cfg a s) (wA wM : List Nat)
+theorem sim_accept {cfg : Cfg} {a : A} {s : State} (hs : SimM cfg a s) (wA wM : List Nat)
     (hw : ∀ v, (v = a.nAccepted + 1 ∨ (a.live v).isSome) → (v ∈ wA ↔ v ∈ wM)) :
-    Sim cfg { a with nAccepted := a.nAccepted + 1, mods := a.mods ++ [{ uid := a.nAccepted + 1 }], w := wA }
+    SimM cfg { a with nAccepted := a.nAccepted + 1, mods := a.mods ++ [{ uid := a.nAccepted + 1 }], w := wA }
       { s with nextUid := s.nextUid + 1, mods := s.mods ++ [{ uid := s.nextUid + 1 }], wlist := wM } := by
   have hn := hs.nacc
   have hgetA : ∀ v, ({ a with nAccepted := a.nAccepted + 1, mods := a.mods ++ [{ uid := a.nAccepted + 1 }], w := wA } : A).get v =
@@ -539,10 +539,10 @@ theorem sim_accept {cfg : Cfg} {a : A} {s : State} (hs : Sim cfg a s) (wA wM : L
     · exact hs.logConn v m h1 h2
 
 /-- the writable set is sampled again -/
-theorem sim_setW {cfg : Cfg} {a : A} {s : State} (hs : Sim cfg a s) (wA wM : List Nat)
-    (hw : ∀ v, (a.live v).isSome → (v ∈ wA ↔ v ∈ wM)) : Sim cfg { a with w := wA } { s with wlist := wM } :=
+theorem sim_setW {cfg : Cfg} {a : A} {s : State} (hs : SimM cfg a s) (wA wM : List Nat)
+    (hw : ∀ v, (a.live v).isSome → (v ∈ wA ↔ v ∈ wM)) : SimM cfg { a with w := wA } { s with wlist := wM } :=
   ⟨hs.uids, hs.nacc, hs.fail, hs.buf, hs.live, hs.mods, hw, hs.logIn, hs.logOut, hs.logConn, hs.logNodup, hs.logBound,
-   hs.idxIn, hs.idxPos, minv_same hs.minv rfl rfl⟩
+   hs.idxIn, hs.idxPos, minvOn_same hs.minv rfl rfl⟩
 
 /-! ## one round, both sides in the same shape -/
 
@@ -602,6 +602,26 @@ def goStart (cfg : Cfg) (aP : A) (wNew : List Nat) (pre : List Ev) : A :=
       (aP.chk ((Spec.closes pre).isEmpty || !(Spec.wfails pre).isEmpty) "C07"
         "a connection was closed before any frame was read in this round") none pre) none pre) pre with w := wNew }
 
+/-- the same for a stretch that spans two polls (`Spec.checkDeparturesAny`) -/
+def goStartU (cfg : Cfg) (aP : A) (wNew : List Nat) (wU : Option (List Nat)) (pre : List Ev) : A :=
+  { Spec.applyDepartures (Spec.checkDeparturesAny cfg (Spec.checkNoticeOrigin cfg
+      (aP.chk ((Spec.closes pre).isEmpty || !(Spec.wfails pre).isEmpty) "C07"
+        "a connection was closed before any frame was read in this round") none pre) wU none pre) pre with w := wNew }
+
+theorem goStartU_none (cfg : Cfg) (aP : A) (wNew : List Nat) (pre : List Ev) :
+    goStartU cfg aP wNew none pre = goStart cfg aP wNew pre := rfl
+
+/-- the second writable set of the stretch before the first read: the union of the two polls when the stretch is the whole
+    round -/
+def preU (a : A) (r : Round) (segs : List (Nat × List Ev)) : Option (List Nat) :=
+  if segs.isEmpty then some ((preAcc a r).w ++ preW a r) else none
+
+theorem preU_ne (a : A) (r : Round) {segs : List (Nat × List Ev)} (h : segs ≠ []) : preU a r segs = none := by
+  unfold preU
+  cases segs with
+  | nil => exact absurd rfl h
+  | cons _ _ => rfl
+
 /-- the end of `Spec.round`: tallies for the statistics checks and the periodic section -/
 def roundEnd (cfg : Cfg) (a : A) (pre : List Ev) (segs : List (Nat × List Ev)) : A :=
   let a := if segs.isEmpty then a else (pre :: (segs.dropLast.map (·.2))).foldl (Spec.noteMgrFrames cfg) a
@@ -609,25 +629,26 @@ def roundEnd (cfg : Cfg) (a : A) (pre : List Ev) (segs : List (Nat × List Ev)) 
   Spec.tail cfg a lastEvs
 
 /-- the rest of `Spec.round` -/
-def roundRest (cfg : Cfg) (aP : A) (wNew : List Nat) (reads : List Read) (pre : List Ev) (segs : List (Nat × List Ev)) : A :=
-  roundEnd cfg (Spec.roundBody.go cfg (goStart cfg aP wNew pre) reads segs (reads.length + segs.length + 1)) pre segs
+def roundRest (cfg : Cfg) (aP : A) (wNew : List Nat) (wU : Option (List Nat)) (reads : List Read) (pre : List Ev)
+    (segs : List (Nat × List Ev)) : A :=
+  roundEnd cfg (Spec.roundBody.go cfg (goStartU cfg aP wNew wU pre) reads segs (reads.length + segs.length + 1)) pre segs
 
 theorem applyDepartures_withW (a : A) (w : List Nat) (evs : List Ev) :
     Spec.applyDepartures ({ a with w := w } : A) evs = ({ Spec.applyDepartures a evs with w := w } : A) := by
-  rw [Spec.applyDepartures_eq, Spec.applyDepartures_eq]
+  rw [Spec.applyDepartures_map, Spec.applyDepartures_map]
 
 theorem coreExt_withW {T : List String} {a b : A} (h : Spec.CoreExt T a b) (w : List Nat) :
     Spec.CoreExt T ({ a with w := w } : A) ({ b with w := w } : A) :=
   ⟨h.mods, h.buf, h.fail, rfl, h.nAccepted, h.errs⟩
 
 theorem goStart_ext (cfg : Cfg) (aP : A) (wNew : List Nat) (pre : List Ev) :
-    ∃ X, Spec.CoreExt ("C07" :: others) ({ aP with w := wNew } : A) X ∧ goStart cfg aP wNew pre = Spec.applyDepartures X pre := by
-  have h : Spec.CoreExt ("C07" :: others) aP (Spec.checkDepartures cfg (Spec.checkNoticeOrigin cfg
+    ∃ X, Spec.CoreExt ("C07" :: othersCore) ({ aP with w := wNew } : A) X ∧ goStart cfg aP wNew pre = Spec.applyDepartures X pre := by
+  have h : Spec.CoreExt ("C07" :: othersCore) aP (Spec.checkDepartures cfg (Spec.checkNoticeOrigin cfg
       (aP.chk ((Spec.closes pre).isEmpty || !(Spec.wfails pre).isEmpty) "C07"
         "a connection was closed before any frame was read in this round") none pre) none pre) :=
     (((Spec.errExt_chk ["C07"] aP _ "C07" _ (by simp)).mono (by simp)).core.trans
-      ((Spec.checkNoticeOrigin_ext cfg _ none pre).mono (by simp [others])).core).trans
-      ((Spec.checkDepartures_ext cfg _ none pre).mono (by simp [others])).core
+      ((Spec.checkNoticeOrigin_ext cfg _ none pre).mono (by simp [othersCore])).core).trans
+      ((Spec.checkDepartures_ext cfg _ none pre).mono (by simp [othersCore])).core
   exact ⟨_, coreExt_withW h wNew, by unfold goStart; exact (applyDepartures_withW _ wNew pre).symm⟩
 
 /-- the C07 clauses of the stretch before the first frame read hold once `checkDepartures` adds at most C14 entries on
@@ -652,11 +673,46 @@ theorem goStart_c07 {cfg : Cfg} {aP : A} (wNew : List Nat) (pre : List Ev)
   show Spec.NoErr "C07" (Spec.applyDepartures _ pre)
   exact noErr_applyDepartures pre (hDD.noErr (by simp) (hN.noErr (by simp) hn))
 
+theorem goStartU_ext (cfg : Cfg) (aP : A) (wNew : List Nat) (wU : Option (List Nat)) (pre : List Ev) :
+    ∃ X, Spec.CoreExt ("C07" :: othersCore) ({ aP with w := wNew } : A) X ∧ goStartU cfg aP wNew wU pre = Spec.applyDepartures X pre := by
+  have h : Spec.CoreExt ("C07" :: othersCore) aP (Spec.checkDeparturesAny cfg (Spec.checkNoticeOrigin cfg
+      (aP.chk ((Spec.closes pre).isEmpty || !(Spec.wfails pre).isEmpty) "C07"
+        "a connection was closed before any frame was read in this round") none pre) wU none pre) :=
+    (((Spec.errExt_chk ["C07"] aP _ "C07" _ (by simp)).mono (by simp)).core.trans
+      ((Spec.checkNoticeOrigin_ext cfg _ none pre).mono (by simp [othersCore])).core).trans
+      ((Spec.checkDeparturesAny_ext cfg _ wU none pre).mono (by simp [othersCore])).core
+  exact ⟨_, coreExt_withW h wNew, by unfold goStartU; exact (applyDepartures_withW _ wNew pre).symm⟩
+
+theorem goStartU_c07 {cfg : Cfg} {aP : A} (wNew : List Nat) (wU : Option (List Nat)) (pre : List Ev)
+    (hjust : ∀ v, Ev.close v ∈ pre → Ev.wfail v ∈ pre)
+    (hD : ∀ X, Spec.CoreExt ["C14"] aP X → Spec.ErrExt ["C14"] X (Spec.checkDepartures cfg X none pre))
+    (hn : Spec.NoErr "C07" aP) : Spec.NoErr "C07" (goStartU cfg aP wNew wU pre) := by
+  cases wU with
+  | none => exact goStart_c07 wNew pre hjust hD hn
+  | some v =>
+    unfold goStartU
+    have h1 : ((Spec.closes pre).isEmpty || !(Spec.wfails pre).isEmpty) = true := by
+      cases hc : Spec.closes pre with
+      | nil => rfl
+      | cons u rest =>
+        have hv : Ev.close u ∈ pre := (mem_closes pre u).mp (by rw [hc]; simp)
+        have : u ∈ Spec.wfails pre := (Spec.mem_wfails pre u).mpr (hjust u hv)
+        cases hwf : Spec.wfails pre with
+        | nil => rw [hwf] at this; cases this
+        | cons _ _ => rfl
+    rw [Spec.chk_of _ _ _ _ h1]
+    have hN := Spec.checkNoticeOrigin_ext cfg aP none pre
+    have hN' : Spec.CoreExt ["C14"] aP ({ Spec.checkNoticeOrigin cfg aP none pre with wAny := v } : A) :=
+      ⟨hN.core.mods, hN.core.buf, hN.core.fail, hN.core.w, hN.core.nAccepted, hN.core.errs⟩
+    have hDD := Spec.errExt_any (hD _ hN')
+    show Spec.NoErr "C07" (Spec.applyDepartures _ pre)
+    exact noErr_applyDepartures pre (hDD.noErr (by simp) (hN.noErr (by simp) hn))
+
 theorem roundEnd_ext (cfg : Cfg) (a : A) (pre : List Ev) (segs : List (Nat × List Ev)) :
-    Spec.CoreExt others a (roundEnd cfg a pre segs) := by
+    Spec.CoreExt othersCore a (roundEnd cfg a pre segs) := by
   unfold roundEnd
   extract_lets b lastEvs
-  have hb : Spec.CoreExt others a b := by
+  have hb : Spec.CoreExt othersCore a b := by
     simp only [b]; split
     · exact Spec.CoreExt.refl _ _
     · exact core_others (Spec.coreExt_foldl [] _ (fun x y => Spec.noteMgrFrames_ext cfg x y) _ _) (by simp)
@@ -664,8 +720,9 @@ theorem roundEnd_ext (cfg : Cfg) (a : A) (pre : List Ev) (segs : List (Nat × Li
 
 theorem round_eq (cfg : Cfg) (a : A) (r : Round) (evs : List Ev) :
     Spec.round cfg a r evs =
-      roundRest cfg (preSt a r (Spec.splitRd evs).2) (preW a r) (preReads a r) (Spec.splitRd evs).1 (Spec.splitRd evs).2 := by
-  unfold Spec.round Spec.roundBody roundRest roundEnd goStart preSt preAcc preW preReads envA
+      roundRest cfg (preSt a r (Spec.splitRd evs).2) (preW a r) (preU a r (Spec.splitRd evs).2) (preReads a r)
+        (Spec.splitRd evs).1 (Spec.splitRd evs).2 := by
+  unfold Spec.round Spec.roundBody roundRest roundEnd goStartU preU preSt preAcc preW preReads envA
   rfl
 
 /-- the model state in which the frames of the round are read -/
@@ -708,7 +765,7 @@ theorem applyDepartures_accept (a : A) (e : List Ev) (wA : List Nat) (h : (Spec.
       { Spec.applyDepartures a e with
         nAccepted := (Spec.applyDepartures a e).nAccepted + 1,
         mods := (Spec.applyDepartures a e).mods ++ [{ uid := (Spec.applyDepartures a e).nAccepted + 1 }], w := wA } := by
-  rw [Spec.applyDepartures_eq, Spec.applyDepartures_eq]
+  rw [Spec.applyDepartures_map, Spec.applyDepartures_map]
   simp only [List.map_append, List.map_cons, List.map_nil]
   have : Spec.killIn (Spec.closes e) ({ uid := a.nAccepted + 1 } : AMod) = { uid := a.nAccepted + 1 } := by
     unfold Spec.killIn; simp only [h, Bool.false_eq_true, if_false]
@@ -723,7 +780,7 @@ connections) and the sampling of the writable set, the Spec's state — with the
 applied — simulates the model's. -/
 theorem pre_ok {a : A} {s : State} (inv : Inv cfg a s) (r : Round) (hwf : ∀ rd ∈ r.reads, rd.uid ≠ 0) :
     ∃ eAcc, (preS cfg s r).out = s.out ++ eAcc ∧ (∀ u, Ev.rd u ∉ eAcc) ∧
-      Sim cfg (Spec.applyDepartures (preA a r) eAcc) (preS cfg s r) ∧ Top cfg (preS cfg s r) ∧ J (preS cfg s r) ∧
+      SimM cfg (Spec.applyDepartures (preA a r) eAcc) (preS cfg s r) ∧ Top cfg (preS cfg s r) ∧ J (preS cfg s r) ∧
       preReads a r = readsS s r ∧ (preA a r).errs = a.errs := by
   have hs1 := sim_env inv.sim r
   have t1 : Top cfg (envStep s r) := top_same ok hfuel inv.top _ rfl rfl rfl
@@ -871,7 +928,7 @@ the new writable set) that the abstract state, with the *old* writable set and t
 simulates; and they meet the departure facts relative to that state. -/
 theorem pre_old (hall : OrdAll cfg) {a : A} {s : State} (inv : Inv cfg a s) (r : Round) (eAcc : List Ev)
     (hPout : (preS cfg s r).out = s.out ++ eAcc) :
-    ∃ s1' : State, Sim cfg (Spec.applyDepartures (envA a r) eAcc) s1' ∧ AllOpen s1' ∧ J s1' ∧ T s1' ∧
+    ∃ s1' : State, SimM cfg (Spec.applyDepartures (envA a r) eAcc) s1' ∧ AllOpen s1' ∧ J s1' ∧ T s1' ∧
       s1'.out = s.out ++ eAcc ∧ DepE cfg none none s1' eAcc := by
   have hs1 := sim_env inv.sim r
   have ta1 : TA cfg s (envStep s r) := by unfold envStep; exact ta_same ok hmt hord hfuel inv.top _ rfl rfl rfl rfl rfl
@@ -916,7 +973,7 @@ include ok hfuel hperm hmt
 
 omit ok hfuel hperm hmt in
 /-- the connections the Spec may count as observers of the accept branch were simulated before it -/
-theorem live_old {cfg : Cfg} {a1 : A} {s1' : State} (e eAll : List Ev) (hs : Sim cfg (Spec.applyDepartures a1 e) s1')
+theorem live_old {cfg : Cfg} {a1 : A} {s1' : State} (e eAll : List Ev) (hs : SimM cfg (Spec.applyDepartures a1 e) s1')
     (hsub : ∀ v, Ev.close v ∈ e → Ev.close v ∈ eAll) (acc : Bool) (o : AMod)
     (ho : o ∈ (if acc then ({ a1 with nAccepted := a1.nAccepted + 1, mods := a1.mods ++ [{ uid := a1.nAccepted + 1 }] } : A)
       else a1).mods) (hal : o.alive = true) (hsb : Spec.subscribed o cfg.mtClosed = true)
@@ -950,7 +1007,7 @@ proved property was reported violated. -/
 theorem round_ok {a : A} {s : State} (inv : Inv cfg a s) (r : Round) (hwf : RoundWF r) (evs : List Ev)
     (he : (step cfg s r).out = s.out ++ evs) :
     Inv cfg (Spec.round cfg a r evs) (step cfg s r) ∧
-    (∀ p ∈ proven, Spec.NoErr p a → Spec.NoErr p (Spec.round cfg a r evs)) := by
+    (∀ p ∈ provenCore, Spec.NoErr p a → Spec.NoErr p (Spec.round cfg a r evs)) := by
   have hord : OrdOK cfg := ordOK_of_perm hperm
   have hall : OrdAll cfg := OrdAll_of_perm hperm
   have tStep : T (step cfg s r) := step_T ok hmt hord hfuel inv.top inv.t r
@@ -990,7 +1047,7 @@ theorem round_ok {a : A} {s : State} (inv : Inv cfg a s) (r : Round) (hwf : Roun
   obtain ⟨X0, hX0, hgs0⟩ := goStart_ext cfg (preAcc a r) (preW a r) eAcc
   have inv0 : Inv cfg (goStart cfg (preAcc a r) (preW a r) eAcc) sP := by
     rw [hgs0]; exact ⟨sim_coreExt hsP (Spec.applyDepartures_coreExt hX0 eAcc), tP, jP, tPre⟩
-  have herr0 : ∀ p ∈ proven, Spec.NoErr p a → Spec.NoErr p (goStart cfg (preAcc a r) (preW a r) eAcc) := by
+  have herr0 : ∀ p ∈ provenCore, Spec.NoErr p a → Spec.NoErr p (goStart cfg (preAcc a r) (preW a r) eAcc) := by
     intro p hp hn
     have hn3 : Spec.NoErr p (preAcc a r) := by unfold Spec.NoErr; rw [herrs']; exact hn
     by_cases h7 : p = "C07"
@@ -1013,33 +1070,33 @@ theorem round_ok {a : A} {s : State} (inv : Inv cfg a s) (r : Round) (hwf : Roun
       (E1 ++ E2) (reads.length + (Spec.splitRd (E1 ++ E2)).2.length + 1) inv0 hwf' (by omega) q hE with
       ⟨hnoE, hid, hskip⟩ | ⟨hp1, hp2, hp3, hp4⟩
   · -- no frame was read in this round: the whole round is one stretch
-    have hs2 : Spec.splitRd (E1 ++ E2) = (E1 ++ E2, []) := splitRd_noRd _ hnoE
+    have hs2 : Spec.splitRd (E1 ++ E2) = (E1 ++ E2, []) := splitRd_none _ hnoE
     rw [hsplit, hs2, ← hevs]
     simp only [List.length_nil, Nat.add_zero]
     rw [preSt_nil]
     generalize hwP : (preAcc a r).w.filter ((preW a r).contains ·) = wP
-    obtain ⟨X, hX, hgs⟩ := goStart_ext cfg ({ preAcc a r with w := wP } : A) (preW a r) evs
-    have hX' : Spec.CoreExt ("C07" :: others) ({ preAcc a r with w := preW a r } : A) X := hX
-    have hsimA : Sim cfg (Spec.applyDepartures ({ preAcc a r with w := preW a r } : A) evs) (ticks cfg (readAll cfg reads sP)) := by
+    obtain ⟨X, hX, hgs⟩ := goStartU_ext cfg ({ preAcc a r with w := wP } : A) (preW a r) (preU a r []) evs
+    have hX' : Spec.CoreExt ("C07" :: othersCore) ({ preAcc a r with w := preW a r } : A) X := hX
+    have hsimA : SimM cfg (Spec.applyDepartures ({ preAcc a r with w := preW a r } : A) evs) (ticks cfg (readAll cfg reads sP)) := by
       rw [hevs, ← applyDepartures_append]
       have hn : Nest sP (ticks cfg (readAll cfg reads sP)) := by rw [hid]; exact ticks_nest cfg sP
       exact sim_quiet hsP tP.aopen q.top.aopen hn q.j (E1 ++ E2) hE
-    have hsimT : Sim cfg (goStart cfg ({ preAcc a r with w := wP } : A) (preW a r) evs) (ticks cfg (readAll cfg reads sP)) := by
+    have hsimT : SimM cfg (goStartU cfg ({ preAcc a r with w := wP } : A) (preW a r) (preU a r []) evs) (ticks cfg (readAll cfg reads sP)) := by
       rw [hgs]; exact sim_coreExt hsimA (Spec.applyDepartures_coreExt hX' _)
-    have hdead : ∀ x ∈ reads, (goStart cfg ({ preAcc a r with w := wP } : A) (preW a r) evs).live x.uid = none := by
+    have hdead : ∀ x ∈ reads, (goStartU cfg ({ preAcc a r with w := wP } : A) (preW a r) (preU a r []) evs).live x.uid = none := by
       intro x hx
       have hgone : (ticks cfg (readAll cfg reads sP)).find x.uid = none :=
         nest_gone q.nest q.top.aopen x.uid (by rw [hid]; exact hskip x hx)
-      cases hl : (goStart cfg ({ preAcc a r with w := wP } : A) (preW a r) evs).live x.uid with
+      cases hl : (goStartU cfg ({ preAcc a r with w := wP } : A) (preW a r) (preU a r []) evs).live x.uid with
       | none => rfl
       | some y =>
         have := (hsimT.live x.uid (hwf' x hx)).mp (by simp [hl])
         rw [hgone] at this; cases this
-    have hgo := go_dead cfg reads (goStart cfg ({ preAcc a r with w := wP } : A) (preW a r) evs) (reads.length + 1) hdead
-    have hend := roundEnd_ext cfg (Spec.roundBody.go cfg (goStart cfg ({ preAcc a r with w := wP } : A) (preW a r) evs) reads []
+    have hgo := go_dead cfg reads (goStartU cfg ({ preAcc a r with w := wP } : A) (preW a r) (preU a r []) evs) (reads.length + 1) hdead
+    have hend := roundEnd_ext cfg (Spec.roundBody.go cfg (goStartU cfg ({ preAcc a r with w := wP } : A) (preW a r) (preU a r []) evs) reads []
       (reads.length + 1)) evs []
-    have hallE : Spec.CoreExt others (goStart cfg ({ preAcc a r with w := wP } : A) (preW a r) evs)
-        (roundEnd cfg (Spec.roundBody.go cfg (goStart cfg ({ preAcc a r with w := wP } : A) (preW a r) evs) reads []
+    have hallE : Spec.CoreExt othersCore (goStartU cfg ({ preAcc a r with w := wP } : A) (preW a r) (preU a r []) evs)
+        (roundEnd cfg (Spec.roundBody.go cfg (goStartU cfg ({ preAcc a r with w := wP } : A) (preW a r) (preU a r []) evs) reads []
           (reads.length + 1)) evs []) := by rw [hgo] at hend ⊢; exact hend
     refine ⟨⟨sim_coreExt hsimT hallE, q.top, q.j, q.t⟩, fun p hp hn => hallE.noErr (proven_not hp) ?_⟩
     have hn3 : Spec.NoErr p ({ preAcc a r with w := wP } : A) := by
@@ -1053,7 +1110,7 @@ theorem round_ok {a : A} {s : State} (inv : Inv cfg a s) (r : Round) (hwf : Roun
           rw [o]; congr 1; rw [hid]
         have : e = E1 ++ E2 := List.append_cancel_left (o'.symm.trans hE)
         rw [← this]; exact d
-      refine goStart_c07 (preW a r) evs (fun v hv => ?_) (fun Y hY => ?_) hn3
+      refine goStartU_c07 (preW a r) (preU a r []) evs (fun v hv => ?_) (fun Y hY => ?_) hn3
       · rw [hevs] at hv ⊢
         rcases List.mem_append.mp hv with h | h
         · exact List.mem_append.mpr (Or.inl ((d1'.just v h).resolve_left (by simp)))
@@ -1089,7 +1146,7 @@ theorem round_ok {a : A} {s : State} (inv : Inv cfg a s) (r : Round) (hwf : Roun
       · exact h7 x
       · exact proven_not hp x
   · -- at least one frame was read
-    rw [hsplit, hp1, List.append_nil, preSt_ne a r hp2]
+    rw [hsplit, hp1, List.append_nil, preSt_ne a r hp2, preU_ne a r hp2, goStartU_none]
     have hend := roundEnd_ext cfg (Spec.roundBody.go cfg (goStart cfg (preAcc a r) (preW a r) eAcc) reads (Spec.splitRd (E1 ++ E2)).2
       (reads.length + (Spec.splitRd (E1 ++ E2)).2.length + 1)) eAcc (Spec.splitRd (E1 ++ E2)).2
     exact ⟨⟨sim_coreExt hp3.sim hend, hp3.top, hp3.j, hp3.t⟩,
@@ -1173,7 +1230,7 @@ theorem init_sim (hord : OrdOK cfg) : Inv cfg ({} : A) (init cfg) := by
       split at hm1
       · cases hm1
         obtain ⟨e1, e2, _⟩ := core_more hcore
-        exact ⟨e1, e2⟩
+        exact ⟨e1, e2, (core_fields hcore).2.2.1⟩
       · cases hm1
     · obtain ⟨m1, hm1, hcore⟩ := n.surv u m hm (t.aopen u m hm)
       simp only [State.find, List.find?_cons, List.find?_nil] at hm1
@@ -1189,7 +1246,7 @@ include hperm
 /-- the rounds of a history, one after the other -/
 theorem rounds_ok : ∀ (rs : List Round) (a : A) (s : State), Inv cfg a s → RoundsWF rs →
     Inv cfg ((List.zip rs (modelRounds cfg s rs)).foldl (fun a p => Spec.round cfg a p.1 p.2) a) (rs.foldl (step cfg) s) ∧
-    (∀ p ∈ proven, Spec.NoErr p a →
+    (∀ p ∈ provenCore, Spec.NoErr p a →
       Spec.NoErr p ((List.zip rs (modelRounds cfg s rs)).foldl (fun a p => Spec.round cfg a p.1 p.2) a)) ∧
     s.out ++ (modelRounds cfg s rs).flatten = (rs.foldl (step cfg) s).out
   | [], a, s, inv, _ => ⟨inv, fun _ _ h => h, by simp [modelRounds]⟩
@@ -1217,11 +1274,11 @@ theorem adjacent_of_sorted : ∀ (l : List Nat), l.Pairwise (· ≤ ·) → (l.z
 
 /-- **The model meets the Spec, for the proved properties.**  Run the model on any well-formed history, hand the Spec
 the history and the events the model wrote, round by round: the Spec's verdict contains no entry for a property in
-`proven` (for C05: on histories whose frames carry their serial numbers in processing order, `IncRounds` — the serial
+`provenCore` (for C05: on histories whose frames carry their serial numbers in processing order, `IncRounds` — the serial
 number is the label by which the Spec recognises the copies of a frame) — and its abstract state at the end simulates
 the model's final state. -/
-theorem model_meets_spec_proven (rs : List Round) (hwf : RoundsWF rs) :
-    ∀ p ∈ proven, (p = "C05" → IncRounds 0 rs) → Spec.NoErr p (Spec.runSpec cfg rs (modelObs cfg rs) none) := by
+theorem model_meets_spec_core (rs : List Round) (hwf : RoundsWF rs) :
+    ∀ p ∈ provenCore, (p = "C05" → IncRounds 0 rs) → Spec.NoErr p (Spec.runSpec cfg rs (modelObs cfg rs) none) := by
   intro p hp hinc
   have hord : OrdOK cfg := ordOK_of_perm hperm
   have hallO : OrdAll cfg := OrdAll_of_perm hperm
@@ -1245,7 +1302,7 @@ theorem model_meets_spec_proven (rs : List Round) (hwf : RoundsWF rs) :
     intro u; rw [hall]
     exact nothing_after_fail (run_J cfg rs) (run_adj ok hallO hfuel rs) u
   refine (Spec.checkNoNotice_ext cfg _ _).noErr (fun h => hnot ?_) ?_
-  · simp only [List.mem_singleton] at h; subst h; simp [others]
+  · simp only [List.mem_singleton] at h; subst h; simp [othersCore]
   by_cases h5 : p = "C05"
   · -- every clause of `checkC05`: counts 1, 2, 3, …; per-sender order; same relative order at any two receivers
     have hi := hinc h5
